@@ -142,6 +142,28 @@ def opMuk : Handler := fun args impl =>
     | none => bad
   | _ => bad
 
+/-- `nroots f seed` ⇒ `r|s|valid`: the Newton root finder on a squarefree integer polynomial must return
+exactly the real roots (their number by Sturm's theorem, exact) and the complex pairs, all of them
+finite, accurate and distinct (validated in the harness) -/
+def opNroots : Handler := fun args impl =>
+  match args with
+  | [fs, _seed] => match parseInts? fs with
+    | some f =>
+      let n := f.length - 1
+      let r := NTV.Spec.Muk.realRootCount f
+      let v := match impl.splitOn "|" with
+        | [rs, ss, flag] => match rs.toNat?, ss.toNat? with
+          | some ri, some si =>
+            if flag != "valid" then "fail:returned-values-are-not-the-roots"
+            else if ri != r then s!"fail:real-root-count-{ri}-instead-of-{r}"
+            else if ri + 2 * si != n then "fail:root-count"
+            else "ok"
+          | _, _ => "fail:unexpected-" ++ impl
+        | _ => "fail:unexpected-" ++ impl
+      ("-", v)
+    | none => bad
+  | _ => bad
+
 def ops : List (String × Handler) :=
-  [("lll", opLll), ("enum", opEnum), ("chval", opChval), ("muk", opMuk)]
+  [("lll", opLll), ("enum", opEnum), ("chval", opChval), ("muk", opMuk), ("nroots", opNroots)]
 end NTV.Driver.C20
